@@ -124,7 +124,8 @@ static Bytes l4_bytes(const Req& q, bool reply, const Addr& src, const Addr& dst
     switch (q.l4) {
         case 0: { proto = 6; TcpSeg s; s.sport = sport; s.dport = dport; s.seq = reply ? (uint32_t)r.next() : q.seq; s.ack = reply ? q.seq + 1 : q.ack; s.flags = reply ? (r.chance(0.5) ? (TH_SYN | TH_ACK) : (TH_RST | TH_ACK)) : q.tcpflags; if (reply && r.chance(0.3)) s.opt_mss(1460); if (!reply) s.payload = q.payload; else if (r.chance(0.3)) s.payload = r.bytes((size_t)r.range(1, 40)); return tcp_bytes(s, src, dst); }
         case 1: { proto = 17; return udp_bytes(sport, dport, reply ? r.bytes((size_t)r.range(1, 60)) : q.payload, src, dst); }
-        case 2: { proto = 17; return udp_bytes(sport, dport, dns_bytes(id, reply, q.qname, reply), src, dst); }
+        case 2: { proto = 17; if (reply && (q.seqn & 3) == 0) { Bytes d(12, 0); d[0] = (uint8_t)(id >> 8); d[1] = (uint8_t)id; d[2] = 0x81; d[3] = 0x85; return udp_bytes(sport, dport, d, src, dst); }   /* a server that refuses: header only (same id, QR, RCODE 5), shorter than the query */
+                  return udp_bytes(sport, dport, dns_bytes(id, reply, q.qname, reply), src, dst); }
         case 3: case 4: case 5: { proto = 1; static const uint8_t rq[3] = { 8, 13, 17 }, rp[3] = { 0, 14, 18 }; uint8_t t = reply ? rp[q.l4 - 3] : rq[q.l4 - 3]; if (icmp_type_override >= 0) t = (uint8_t)icmp_type_override;
                   Bytes rest = q.l4 == 3 ? (reply ? q.payload : q.payload) : q.l4 == 4 ? Bytes(12, 0) : Bytes(4, 0); return icmp_bytes(t, 0, id, sq, rest); }
         case 7: { proto = 17; uint32_t xid = q.seq ^ (uint32_t)(id ^ q.id); Bytes b; b.push_back(reply ? 2 : 1); b.push_back(1); b.push_back(6); b.push_back(0); put32(b, xid); put16(b, 0); put16(b, 0); for (int i = 0; i < 4; ++i) put32(b, reply && i == 1 ? 0x0a000063u : 0); b.resize(b.size() + 16 + 64 + 128, 0); put32(b, 0x63825363); b.push_back(53); b.push_back(1); b.push_back(reply ? 2 : 1); if (reply) { b.push_back(54); b.push_back(4); putb(b, src.b, 4); } b.push_back(255); return udp_bytes(sport, dport, b, src, dst); }
